@@ -12,6 +12,7 @@ package interp
 // prefixes), which Go's own maps and pointer hashes do not give.
 
 import (
+	"go/token"
 	"go/types"
 )
 
@@ -31,6 +32,57 @@ type omap struct {
 	idx     map[value]int // builtin keys: key -> position in ents
 	ents    []oent
 	n       int
+	nsym    int // live entries whose key is a byte-array string with symbolic bytes (never in idx; found by identity)
+}
+
+func sameSymString(a, b symString) bool {
+	return len(a.bytes) == len(b.bytes) && len(a.bytes) > 0 && &a.bytes[0] == &b.bytes[0]
+}
+
+// resolveStrKey makes a string key with symbolic bytes usable: it is compared (forking) with every live key of the same
+// length; the result is either the very key object already in the map or k itself, which is then known to be absent.
+// A concrete key is likewise compared with the symbolic keys present.
+func (fr *frame) resolveStrKey(m *omap, k value) value {
+	if m == nil {
+		return k
+	}
+	ks, isSym := k.(symString)
+	if !isSym {
+		if m.nsym == 0 {
+			return k
+		}
+		if _, isStr := k.(string); !isStr {
+			return k
+		}
+	}
+	xp := fr.i.x
+	for i := range m.ents {
+		e := &m.ents[i]
+		if !e.live {
+			continue
+		}
+		es, eSym := e.k.(symString)
+		if !isSym && !eSym {
+			continue
+		}
+		if eSym && isSym && sameSymString(es, ks) {
+			return e.k
+		}
+		if lenOf(e.k) != lenOf(k) {
+			continue
+		}
+		eq := xp.symStringBinop(token.EQL, k, e.k)
+		if b, ok := eq.(bool); ok {
+			if b {
+				return e.k
+			}
+			continue
+		}
+		if xp.decide(eq.(sym), "map-key-equals-existing") {
+			return e.k
+		}
+	}
+	return k
 }
 
 // makeMap returns an empty initialized map of key type kt.
@@ -48,6 +100,14 @@ func (m *omap) find(k value) int {
 	}
 	if _, s := k.(sym); s {
 		panic(unsupported("symbolic map key"))
+	}
+	if ks, isSS := k.(symString); isSS {
+		for i := range m.ents {
+			if es, ok := m.ents[i].k.(symString); ok && m.ents[i].live && sameSymString(es, ks) {
+				return i
+			}
+		}
+		return -1
 	}
 	if m.builtin {
 		if i, ok := m.idx[k]; ok {
@@ -80,7 +140,9 @@ func (m *omap) set(k, v value) {
 		return
 	}
 	m.ents = append(m.ents, oent{k, v, true})
-	if m.builtin {
+	if _, isSS := k.(symString); isSS {
+		m.nsym++
+	} else if m.builtin {
 		m.idx[k] = len(m.ents) - 1
 	}
 	m.n++
@@ -90,7 +152,9 @@ func (m *omap) del(k value) {
 	if i := m.find(k); i >= 0 {
 		m.ents[i].live = false
 		m.ents[i].v = nil
-		if m.builtin {
+		if _, isSS := k.(symString); isSS {
+			m.nsym--
+		} else if m.builtin {
 			delete(m.idx, k)
 		}
 		m.n--
